@@ -128,6 +128,7 @@ CARGO_PATCH = """
 [workspace]
 
 [patch.crates-io]
+rand = {{ path = "{models}/rand" }}
 rand_xoshiro = {{ path = "{models}/rand_xoshiro" }}
 rand_distr = {{ path = "{models}/rand_distr" }}
 rand_chacha = {{ path = "{models}/rand_chacha" }}
@@ -418,7 +419,8 @@ def make_replay(prop, h, res, src_scratch, target_dir, logdir):
     directory under /verif/replays and run it natively. returns (path, reproduced, note)"""
     extra = ["--output-format", "regular", "-Z", "concrete-playback", "--concrete-playback=print"] + list(h.extra)
     cmd = kani_cmd(h.name, target_dir, extra)
-    full = ("ulimit -v %d; exec " % MEM_KB) + " ".join("'%s'" % c for c in cmd)
+    # no address-space limit here: kani-driver holds CBMC's whole JSON trace in memory
+    full = " ".join("'%s'" % c for c in cmd)
     logf = os.path.join(logdir, h.name + ".playback.log")
     rc, out, secs, to = sh(full, cwd=src_scratch, timeout=max(h.timeout, 300) * 2, out=logf)
     test_src, test_name = extract_playback_test(out)
@@ -449,6 +451,14 @@ def make_replay(prop, h, res, src_scratch, target_dir, logdir):
     rc2, diff, _, _ = sh(["git", "-C", REPO, "diff", "HEAD", "--", "src", "Cargo.toml"])
     with open(os.path.join(rdir, "repo_diff_vs_HEAD.patch"), "w") as f:
         f.write(diff)
+    if not test_src and h.unwind_is_violation and res.get("unwind_fail"):
+        # non-termination candidate: Kani prints no playback test for a pure unwinding failure.
+        # The harness takes no symbolic input on this path, so the replay is the harness itself.
+        test_name = "kani_concrete_playback_%s_nonterm" % h.name
+        test_src = ("#[test]\nfn %s() {\n    unsafe {\n        rand_xoshiro::oracle::NATIVE_FALLBACK = true;\n        rand_chacha::oracle::NATIVE_FALLBACK = true;\n    }\n"
+                    "    let concrete_vals: Vec<Vec<u8>> = vec![];\n    kani::concrete_playback_run(concrete_vals, %s);\n}") % (test_name, h.name)
+        info["playback_test"] = test_name
+        info["expect_hang"] = True
     if not test_src:
         info["note"] = "Kani produced no concrete playback test for this failure"
         with open(os.path.join(rdir, "info.json"), "w") as f:
@@ -486,7 +496,7 @@ def run_replay(rdir):
     reproduced = False
     try:
         for prof in (False, True):
-            cmd = ["cargo", "kani", "playback", "-Z", "concrete-playback", "--lib", "--", info["playback_test"], "--nocapture"]
+            base = ["cargo", "kani", "playback", "-Z", "concrete-playback", "--lib"]
             env = dict(ENV)
             env["CARGO_TARGET_DIR"] = os.path.join(d, "tgt")
             if prof:
@@ -494,13 +504,23 @@ def run_replay(rdir):
                 env["CARGO_PROFILE_TEST_OPT_LEVEL"] = "3"
                 env["CARGO_PROFILE_TEST_DEBUG_ASSERTIONS"] = "false"
                 env["CARGO_PROFILE_TEST_OVERFLOW_CHECKS"] = "false"
-            rc, out, secs, to = sh(cmd, cwd=src, timeout=1500, env=env)
+            pname = "release-like" if prof else "dev"
+            # build first, so that the run itself can be given a short time limit (hang detection)
+            rc, out, secs, to = sh(base + ["--only-codegen"], cwd=src, timeout=1500, env=env)
+            run_limit = 60 if info.get("expect_hang") else 600
+            rc, out, secs, to = sh(base + ["--", info["playback_test"], "--nocapture"], cwd=src, timeout=run_limit, env=env)
             tail = "\n".join(out.splitlines()[-30:])
+            if to:
+                if "Running unittests" in out:
+                    notes.append("%s profile: the call did not return within %d s natively (hang reproduced)" % (pname, run_limit))
+                    reproduced = True
+                else:
+                    notes.append("%s profile: playback build did not finish: %s" % (pname, tail[-300:]))
+                continue
             ran = None
             for ran in re.finditer(r"test result: (\w+)\. (\d+) passed; (\d+) failed", out):
                 if int(ran.group(2)) + int(ran.group(3)) > 0:
                     break
-            pname = "release" if prof else "dev"
             if ran and int(ran.group(3)) > 0:
                 pm = re.search(r"panicked at (.*?):\n(.*)", out)
                 if pm is None:
